@@ -347,7 +347,9 @@ def replay_counterexample(qfn, files, inputs, obligation_label, kind, native_map
     try:
         qfn(E)
     except NativePanic as ex:
-        return (kind == "panic" or True), {"native": E.native_log, "note": "real function panicked"}
+        # a panic of the real code reproduces a panic obligation; for any other obligation it is reported as not reproduced
+        # (exit 2) so that a failing set-up step of the native scenario can never be taken for a violation
+        return kind == "panic", {"native": E.native_log, "note": "real function panicked"}
     except KeyError as ex:
         return False, {"note": "model lacks input %s" % ex}
     # assumptions must hold on the concrete inputs
@@ -410,7 +412,7 @@ def differential(files, vectors, native_map=None, K=6, N=24, lits=None, override
                 mism.append({"fn": fn, "args": args, "encoder": "panic", "real": r})
         elif "panic" in r:
             mism.append({"fn": fn, "args": args, "encoder": m[1], "real": "panic"})
-        elif isinstance(r["ok"], dict) and ("uri_error" in r["ok"] or "header_error" in r["ok"]):
+        elif isinstance(r["ok"], dict) and ("uri_error" in r["ok"] or "header_error" in r["ok"] or "setup_error" in r["ok"]):
             n -= 1  # the real URI/header parser rejected the text: vector not comparable
         elif not same(m[1], r["ok"]):
             mism.append({"fn": fn, "args": args, "encoder": m[1], "real": r["ok"]})
